@@ -91,7 +91,7 @@ Scenarios ==
   \cup
   \* C09: forwarding headers
   { Scenario("fwd", p, "normal", TRUE, ph, h, "absent", <<"curl/8">>, FALSE, "GET", "/a", ls) :
-      p \in Protos, ph \in BOOLEAN, h \in {"vf.test", "other.example:8443"}, ls \in SubSeqs(FwdLines, MaxLines) }
+      p \in Protos, ph \in BOOLEAN, h \in {"vf.test", "other.example:8443", "default.example:443", "[2001:db8::1]:443"}, ls \in SubSeqs(FwdLines, MaxLines) }
   \cup
   \* C09: an HTTP/2 client may write ":scheme: http" on its TLS connection; the connection is TLS all the same
   { [Scenario("fwd", "h2", "normal", TRUE, ph, "vf.test", "absent", <<"curl/8">>, FALSE, "GET", "/a", ls) EXCEPT !.scheme = "http"] :
